@@ -712,6 +712,16 @@ func runCheck(prop, tier string) int {
 		fmt.Println("HARNESS-TROUBLE: no runs executed")
 		return 2
 	}
+	if exit == 0 {
+		// a run given up for a reason internal to the harness (own encoder not accepted, session could not be installed...)
+		// decided nothing: that must not look like a pass
+		for reason, n := range a.discarded {
+			if strings.HasPrefix(reason, "harness:") {
+				fmt.Printf("HARNESS-TROUBLE: %d run(s) discarded: %s\n", n, reason)
+				exit = 2
+			}
+		}
+	}
 	return exit
 }
 
